@@ -186,10 +186,21 @@ func (v *Value) Swap(new any) (old any) {
 }
 
 func (v *Value) CompareAndSwap(old, new any) (swapped bool) {
-	v.checkNew("compare and swap", new)
-
-	if !(v.v == nil && old == nil) && !sameType(old, new) {
-		panic("sync/atomic: compare and swap of inconsistently typed values into Value")
+	if new == nil {
+		panic("sync/atomic: compare and swap of nil value into Value")
+	}
+	if old != nil && !sameType(old, new) {
+		panic("sync/atomic: compare and swap of inconsistently typed values")
+	}
+	if v.v == nil {
+		if old != nil {
+			return false
+		}
+		v.v = new
+		return true
+	}
+	if !sameType(new, v.v) {
+		panic("sync/atomic: compare and swap of inconsistently typed value into Value")
 	}
 
 	if v.v != old {
